@@ -95,6 +95,12 @@ CHECKS["C15"] = dict(
    note="Faults are permanent from their position on. One exemption: ReadJSON need not report an error that arrives together with the last bytes of a complete document. Commit is not exercised (qframe never calls it).",
    design="5/C15")
 
+CHECKS["C19"] = dict(
+   technique="bounded-exhaustive enumeration of frames x dialect configurations and of result sets x coercion/precision configurations against a recording in-memory database/sql driver",
+   text="ToSQL on every two-column frame over all type pairs with 1-3 rows (nulls, NaN, -0, MaxInt64) x escape character x placeholder style x table name x index shape: exactly one INSERT per row in frame order with the specified statement text and arguments, then read back through ReadSQL from the store. ReadSQL on every result set of up to 2 (3) columns from 7 column alternatives and up to 3 (4) rows with NULL in every position, coercions and precision: names, order, types and values must match.",
+   note="Trusted: harness driver sqlmem (records what database/sql hands over). Homogeneous columns; all-NULL columns are outside the property.",
+   design="5/C19")
+
 NOT_YET = {}
 BASELINE_CMD = "for m in $(cat /w/out/gomods.txt); do MF=$(cd /repo/$m && . /w/out/goenv.sh && gomodflag); (cd /repo/$m && go test $MF -json -vet=off -count=1 -timeout 25m ./...); done"
 
